@@ -322,6 +322,10 @@ pub fn analyze_font_usage(buf: &Buffer) -> Vec<usize> {
             hash_set.insert(ch.get_font_page());
         }
     }
+    if hash_set.is_empty() {
+        // an empty buffer still uses its primary font
+        hash_set.insert(0);
+    }
     let mut v: Vec<usize> = hash_set.into_iter().collect();
     v.sort_unstable();
     v
